@@ -51,6 +51,10 @@ def _do_chunked_reproject(
 
     dst_shape = ba.with_yx(ba.shape, dst_gbox.shape)
     dst = np.zeros(dst_shape, dtype=dtype)
+    if dst_nodata is None and dst.dtype.kind == "f":
+        # same fill as chunks that have no source data at all (NaN unless src_nodata is set),
+        # GDAL would otherwise leave 0 in the parts of the chunk no source pixel reaches
+        dst_nodata = float(resolve_fill_value(None, src_nodata, dst.dtype))
 
     for src_roi in ba.planes_yx():
         src = ba.extract(src_nodata, dtype=dtype, casting=casting, roi=src_roi)
